@@ -671,3 +671,17 @@ for _u in _c11["UNITS"]:
         _u.template = "../C11/" + _u.template
         UNITS.append(_u)
 META["trusted_base"] = list(META.get("trusted_base", [])) + ["units c11.tss.* are the C11 units of the same name (specs/C11/tss.c)"]
+
+
+# ---- C19 units reused (added after seeded change C10-8 was missed): the scheduling loop decides whether the policy may steal (pending and,
+# ---- after idling for a while, STAGED tasks of other workers); with a static policy (enable_stealing cleared) it never may -- obligation
+# ---- "steal flags passed to get_next_thread / wait_or_add_new imply the scheduler mode bit" of loop.iteration
+_c19 = {"UNITS": [], "VX_NO_REUSE": True}
+if not globals().get("VX_NO_REUSE"):
+    exec(compile(open("/verif/specs/C19/spec.py").read(), "/verif/specs/C19/spec.py", "exec"), _c19)
+for _u in _c19["UNITS"]:
+    if _u.name in ("loop.prologue", "loop.iteration"):
+        _u.name = "c19." + _u.name
+        _u.template = "../C19/" + _u.template
+        UNITS.append(_u)
+META["trusted_base"] = list(META.get("trusted_base", [])) + ["units c19.loop.* are the C19 units of the same name (specs/C19/loop_iter.c) with their trusted base"]
